@@ -484,11 +484,20 @@ async def _command(conn: Conn, tag: bytes, segs: list[bytes]) \
     return task.result()
 
 
+async def _kill(conn: Conn) -> None:
+    """End a stuck server task.  Not by EOF: on the unfixed tree
+    ``IMAPConnection.readline`` spins forever when EOF follows a line that
+    ends in ``{0+}`` (C06's business)."""
+    if conn.task is not None and not conn.task.done():
+        conn.task.cancel()
+    await conn.wait_closed()
+
+
 async def _must(conn: Conn, line: bytes) -> Result:
     tag = conn.next_tag()
     r = await _command(conn, tag, [tag + b' ' + line + b'\r\n'])
     if r is None:
-        conn.hard_reset()
+        await _kill(conn)
         raise Died('no response (server waits for more input) to %r'
                    % line[:60])
     if r.tagged is None:
@@ -578,8 +587,7 @@ async def run_once(fam: dict[str, Any], backend: str, kinds: list[str],
                 rec['cond'] = b'HUNG'
                 res.append(('cmd', 'no response: the server waits for more '
                             'input than the command has'))
-                conn.hard_reset()
-                await conn.wait_closed()
+                await _kill(conn)
                 raise Died('hung')
             rec['cond'] = r.cond
             res.append(('cmd', norm_result(r, ren)))
@@ -1061,10 +1069,14 @@ def fam_search(rng: random.Random, backend: str) -> dict[str, Any]:
 
     def sval() -> bytes:
         nonlocal eightbit
-        if rng.random() < 0.45:
+        r = rng.random()
+        if r < 0.35:
             classes.append('search:snippet')
             return rng.choice(SEARCH_SNIPPETS)
         v, c = gen_value(rng, 'astring', backend)
+        if r < 0.47:
+            v, c = rng.choice(['caf\u00e9', '\u65e5\u672c', 'na\u00efve',
+                               '\u0416 x']).encode(), '8bit-utf8'
         if c == 'ctl-in-literal':
             v, c = b'two words', 'space'
         classes.append('search:' + c)
@@ -1543,7 +1555,8 @@ def run_inproc(spec: dict[str, Any], counters: dict[str, int],
         mech = '%s:%s' % (mech, w.pop('label', None) or cname)
         wire = w.get('wire') or w.get('serialised') or b''
         if w.pop('atomic', False) and b'}' in wire and (
-                mech.startswith('legal-spelling-unparseable')
+                mech.split(':')[0] in ('legal-spelling-unparseable',
+                                       'roundtrip-unparseable')
                 or (mech.split(':')[0] in ('parse-consumes-wrong-length',
                                            'roundtrip-consumes-wrong-length')
                     and w.get('left', b'')[:1] == b'}')):
@@ -1575,7 +1588,8 @@ def run_inproc(spec: dict[str, Any], counters: dict[str, int],
                        else 'roundtrip-unparseable',
                        '%s: bytes(%s object) = %r does not parse again '
                        '(tail %r)' % (cname, origin, w[:80], tail),
-                       serialised=w[:300], tail=tail, origin=origin)
+                       serialised=w[:300], tail=tail, origin=origin,
+                       atomic=_atomic(w))
                 return
             if rest != tail:
                 report('roundtrip-consumes-wrong-length',
@@ -1914,7 +1928,7 @@ SCRIPT_NAMES = {
 # the check
 # ---------------------------------------------------------------------------
 
-class _Watchdog(Exception):
+class _Watchdog(BaseException):
     pass
 
 
@@ -1968,7 +1982,7 @@ class C18(Check):
               'rt_Mailbox': 1000, 'class|mailbox:mutf7': 30,
               'class|mailbox:quote-backslash': 30,
               'class|mailbox:literal-lookalike': 30,
-              'class|search:8bit-utf8': 10, 'class|login:8bit-utf8': 5}
+              'class|search:8bit-utf8': 5, 'class|login:8bit-utf8': 3}
     time_cap = {'quick': 75.0, 'thorough': 900.0}
 
     def cases(self, tier: str, seed: int) -> Iterable[dict[str, Any]]:
